@@ -141,7 +141,7 @@ def run(prop, tier, replay=None):
         per = 40 if tier == "quick" else 400
         for name in CONFIGS:
             c = getattr(gateway, name)
-            res, scheds = gateway.run_mc(c, "quick")
+            res, scheds = gateway.run_mc(dict(c, pairs=False), "quick")
             states += res["distinct"]
             transitions += res["generated"]
             scheds = rnd.sample(scheds, min(per, len(scheds)))
